@@ -63,6 +63,12 @@ def gen_cases(ctx):
                         # callers that also pass the optional arguments (other branches of the wait loop)
                         yield dict(base, opts=["progress_cb"])
                         yield dict(base, opts=["progress_cb", "cancel_token"], opts_for="odd")
+                    if pname in ("spread", "across_polls") and ids == "auto" and list(perm) == sorted(perm):
+                        # unread messages are already sitting in the read buffer when the callers issue their requests
+                        # (answers in caller order: the one order that is free of the known demultiplexing finding)
+                        for k in (1, 2, 5):
+                            yield dict(base, preload=k)
+                            yield dict(base, preload=k, start_gap=0.05)
                     if pname in ("spread", "same_instant") and ids == "auto":
                         # the application resets the random module just before every call
                         yield dict(base, reseed=True)
@@ -221,6 +227,9 @@ def exec_case(ctx, case: Dict[str, Any]) -> None:
                     pipe2.srv_send.send_nowait(parse_message({"jsonrpc": "2.0", "id": req.id, "result": {"tag": req.params["tag"]}}))
             twin_tasks = [asyncio.create_task(twin_caller(i), name=f"twin-{i}") for i in range(n)]
             twin_tasks.append(asyncio.create_task(twin_server(), name="twin-server"))
+        for k in range(case.get("preload", 0)):
+            pipe.srv_send.send_nowait(parse_message({"jsonrpc": "2.0", "method": "notifications/message",
+                                                     "params": {"level": "info", "data": f"queued-{k}"}}))
         tasks = [asyncio.create_task(caller(i), name=f"caller-{i}") for i in range(n)]
         st = asyncio.create_task(server(), name="server")
         await asyncio.gather(*tasks, *twin_tasks)
